@@ -307,23 +307,34 @@ def run_check(prop, tier, suites, level, level_text, extra_trusted=(), assumptio
 def intensified_search(prop, suites, seed, tier, broken_corr, budget=None):
     """the tie broke but the monitor saw nothing on the regular cases: look harder for a concrete
     failing input (more seeds; the disagreeing cases and their prefixes/mutations first)."""
-    budget = budget or (40 if tier == "quick" else 200)
+    budget = budget or (90 if tier == "quick" else 300)
     t_end = time.time() + budget
     for su in suites:
         mon = su.monitors().get(prop)
         if not mon:
             continue
-        # disagreeing cases first (already seen by the monitor as a whole; try their variants)
+        # disagreeing cases first (already seen by the monitor as a whole; try their variants), round-robin over the cases so
+        # that one case with many variants cannot use up the whole budget
+        gens = []
         for s2, d in broken_corr:
             if s2 is su and d.get("case") is not None and hasattr(su, "variants"):
                 case = suite_result(su, seed, tier)["cases"][d["case"]]
-                for c2 in su.variants(case, random.Random(seed)):
+                gens.append(su.variants(case, random.Random(seed)))
+        t_variants = time.time() + 0.75 * budget
+        while gens and time.time() < t_variants:
+            for g in list(gens):
+                for _ in range(25):
+                    try:
+                        c2 = next(g)
+                    except StopIteration:
+                        gens.remove(g)
+                        break
                     r2 = su.run_impl(c2)
                     vs = mon(c2, r2)
                     if vs:
                         return su, c2, r2, vs[0]
-                    if time.time() > t_end:
-                        return None
+                if time.time() > t_variants:
+                    break
         modes = [suite_result(su, seed, tier)["cases"][d["case"]].get("mode") for s2, d in broken_corr
                  if s2 is su and d.get("case") is not None and isinstance(suite_result(su, seed, tier)["cases"][d["case"]], dict)]
         su.search_modes = [m for m in modes if m] or None
